@@ -1,9 +1,1473 @@
-//! C07 — (module under construction)
-use crate::report::{Coverage, Reporter};
-use serde_json::Value;
+//! C07 — text search and partition operations agree with plain string operations.
+//!
+//! Bounded-exhaustive enumeration (no sampling): every text over a 7-letter alphabet of 1-4 byte
+//! codepoints (two of which change their UTF-8 length when lower-cased) up to a length, searched as a
+//! whole resource and inside **every** sub-selection `[b,e)`, with every needle / delimiter of length
+//! 0-2, every trim set over three letters, every fragment sequence from a small menu, a fixed menu of
+//! regular expressions (alone, in ordered pairs and in ordered triples, with and without overlap), and
+//! — for segmentation — every set of known selections up to a size, in every sub-range.
+//!
+//! Oracles are the plain string operations of `std` (`match_indices`, `to_lowercase`, `split`,
+//! `trim_matches`-style counting) and the `regex` crate run directly on the searched slice, with
+//! byte -> codepoint conversion done by counting `chars()`.
 
-pub fn run(_rep: &Reporter) -> Coverage {
-    Coverage::default()
+use crate::report::{Coverage, Reporter, Tier};
+use crate::util::{all_ranges, catch, msg_class};
+use rayon::prelude::*;
+use regex::{Regex, RegexSet};
+use serde_json::{json, Value};
+use stam::{
+    AnnotationBuilder, AnnotationStore, Config, FindText, Offset, ResultTextSelection, SelectorBuilder, Text,
+    TextResourceBuilder,
+};
+use std::cell::RefCell;
+use std::collections::HashMap;
+use std::sync::atomic::{AtomicU64, Ordering};
+
+type R = (usize, usize);
+
+/// a (1 byte, lower), A (1 byte, upper), space, é (2 bytes), 𝄞 (4 bytes), İ (2 bytes, lower-cases to the 3 bytes
+/// / 2 codepoints "i̇"), ẞ (3 bytes, lower-cases to the 2 bytes "ß")
+const SIGMA: [char; 7] = ['a', 'A', ' ', '\u{e9}', '\u{1d11e}', '\u{130}', '\u{1e9e}'];
+/// extra single-codepoint needles that differ from the text only by case: É, ß
+const NEEDLE_EXTRA: [char; 2] = ['\u{c9}', '\u{df}'];
+const TRIM_LETTERS: [char; 3] = ['a', ' ', '\u{e9}'];
+const SEQ_FRAGS: [&str; 6] = ["a", "A", " ", "\u{130}", "\u{1e9e}", "aA"];
+const SEQ_FRAGS3: [&str; 3] = ["a", "A", " "];
+/// hard cap on the number of items drawn from any library iterator
+const CAP: usize = 64;
+/// the second resource of the two-resource store used for the `AnnotationStore::find_text*` entry points
+const R2_TEXT: &str = "aA \u{130}";
+
+const RX: [&str; 16] = [
+    "a",           // 0
+    "a|A",         // 1
+    "(a)(A)?",     // 2  capture groups, second optional
+    ".",           // 3
+    r"\s+",        // 4
+    "(?i)a",       // 5
+    "(a)|(A)",     // 6  alternative capture groups
+    "^",           // 7  zero-width
+    "$",           // 8  zero-width
+    r"\b",         // 9  zero-width
+    r"(.)\s(.)",   // 10 two groups with context in between
+    "a*",          // 11 may match the empty string
+    "[^a ]+",      // 12 runs of (mostly) multi-byte codepoints
+    "(?:a)(.)",    // 13 context before the group: group starts after the overall match
+    "(a)?A",       // 14 group may not participate at all
+    r"\w(\w)",     // 15
+];
+const RX_PAIR: [usize; 6] = [0, 1, 2, 3, 4, 10];
+const RX_TRIPLE: [usize; 4] = [0, 3, 2, 4];
+
+// ------------------------------------------------------------------------------------------------
+// cases
+
+#[derive(Clone, Copy, PartialEq, Eq, Debug)]
+enum Scope {
+    Res,
+    Sel(usize, usize),
 }
 
-pub fn replay(_rep: &Reporter, _case: &Value) {}
+/// Which store / receiver type is used.
+/// `Plain`: store without annotations; sub-selections are `ResultTextSelection::Unbound`.
+/// `Bound`: every range of the text carries an annotation; sub-selections are `ResultTextSelection::Bound`.
+/// `Item`: as `Bound`, but the call goes through the separate `impl FindText for ResultItem<TextSelection>`.
+#[derive(Clone, Copy, PartialEq, Eq, Debug)]
+enum Recv {
+    Plain,
+    Bound,
+    Item,
+}
+
+impl Recv {
+    fn name(&self) -> &'static str {
+        match self {
+            Recv::Plain => "plain",
+            Recv::Bound => "bound",
+            Recv::Item => "item",
+        }
+    }
+    fn from_name(s: &str) -> Recv {
+        match s {
+            "bound" => Recv::Bound,
+            "item" => Recv::Item,
+            _ => Recv::Plain,
+        }
+    }
+}
+
+#[derive(Clone, Debug, PartialEq, Eq)]
+enum Op {
+    Find { needle: String, nocase: bool },
+    Split { delim: String },
+    Trim { set: Vec<char>, with_fn: bool },
+    Seq { frags: Vec<String>, skip: u8, cs: bool },
+    Regex { exprs: Vec<usize>, overlap: bool, preset: bool },
+    StoreFind { needle: String, nocase: bool },
+    StoreRegex { exprs: Vec<usize>, overlap: bool },
+}
+
+const SKIP_NAMES: [&str; 3] = ["never", "space", "nonalphabetic"];
+
+fn skip_fn(kind: u8, c: char) -> bool {
+    match kind {
+        0 => false,
+        1 => c == ' ',
+        _ => !c.is_alphabetic(),
+    }
+}
+
+impl Op {
+    fn name(&self) -> &'static str {
+        match self {
+            Op::Find { nocase: false, .. } => "find_text",
+            Op::Find { nocase: true, .. } => "find_text_nocase",
+            Op::Split { .. } => "split_text",
+            Op::Trim { with_fn: false, .. } => "trim_text",
+            Op::Trim { with_fn: true, .. } => "trim_text_with",
+            Op::Seq { .. } => "find_text_sequence",
+            Op::Regex { .. } => "find_text_regex",
+            Op::StoreFind { nocase: false, .. } => "store.find_text",
+            Op::StoreFind { nocase: true, .. } => "store.find_text_nocase",
+            Op::StoreRegex { .. } => "store.find_text_regex",
+        }
+    }
+    fn to_json(&self) -> Value {
+        match self {
+            Op::Find { needle, .. } | Op::StoreFind { needle, .. } => json!({"op": self.name(), "needle": needle}),
+            Op::Split { delim } => json!({"op": self.name(), "delim": delim}),
+            Op::Trim { set, .. } => json!({"op": self.name(), "set": set.iter().collect::<String>()}),
+            Op::Seq { frags, skip, cs } => {
+                json!({"op": self.name(), "frags": frags, "skip": SKIP_NAMES[*skip as usize], "case_sensitive": cs})
+            }
+            Op::Regex { exprs, overlap, preset } => json!({"op": self.name(),
+                "exprs": exprs.iter().map(|i| RX[*i]).collect::<Vec<_>>(), "allow_overlap": overlap, "precompiled_set": preset}),
+            Op::StoreRegex { exprs, overlap } => json!({"op": self.name(),
+                "exprs": exprs.iter().map(|i| RX[*i]).collect::<Vec<_>>(), "allow_overlap": overlap}),
+        }
+    }
+    fn from_json(v: &Value) -> Option<Op> {
+        let name = v["op"].as_str()?;
+        let s = |k: &str| v[k].as_str().map(|x| x.to_string());
+        let exprs = || -> Option<Vec<usize>> {
+            v["exprs"].as_array()?.iter().map(|e| RX.iter().position(|r| Some(*r) == e.as_str())).collect()
+        };
+        Some(match name {
+            "find_text" => Op::Find { needle: s("needle")?, nocase: false },
+            "find_text_nocase" => Op::Find { needle: s("needle")?, nocase: true },
+            "store.find_text" => Op::StoreFind { needle: s("needle")?, nocase: false },
+            "store.find_text_nocase" => Op::StoreFind { needle: s("needle")?, nocase: true },
+            "split_text" => Op::Split { delim: s("delim")? },
+            "trim_text" => Op::Trim { set: s("set")?.chars().collect(), with_fn: false },
+            "trim_text_with" => Op::Trim { set: s("set")?.chars().collect(), with_fn: true },
+            "find_text_sequence" => Op::Seq {
+                frags: v["frags"].as_array()?.iter().filter_map(|x| x.as_str().map(|y| y.to_string())).collect(),
+                skip: SKIP_NAMES.iter().position(|n| Some(*n) == v["skip"].as_str())? as u8,
+                cs: v["case_sensitive"].as_bool()?,
+            },
+            "find_text_regex" => Op::Regex {
+                exprs: exprs()?,
+                overlap: v["allow_overlap"].as_bool()?,
+                preset: v["precompiled_set"].as_bool()?,
+            },
+            "store.find_text_regex" => Op::StoreRegex { exprs: exprs()?, overlap: v["allow_overlap"].as_bool()? },
+            _ => return None,
+        })
+    }
+}
+
+fn scope_json(s: Scope) -> Value {
+    match s {
+        Scope::Res => Value::Null,
+        Scope::Sel(b, e) => json!([b, e]),
+    }
+}
+
+fn case_json(text: &str, scope: Scope, recv: Recv, op: &Op) -> Value {
+    json!({"kind": "text", "text": text, "scope": scope_json(scope), "recv": recv.name(), "op": op.to_json()})
+}
+
+// ------------------------------------------------------------------------------------------------
+// regular expressions: one compiled menu per thread (no shared cache pools between workers)
+
+struct Menu {
+    single: Vec<Regex>,
+    sets: HashMap<Vec<usize>, (Vec<Regex>, RegexSet)>,
+}
+
+impl Menu {
+    fn new() -> Menu {
+        Menu {
+            single: RX.iter().map(|s| Regex::new(s).expect("menu regex")).collect(),
+            sets: HashMap::new(),
+        }
+    }
+    fn ensure(&mut self, exprs: &[usize]) {
+        if !self.sets.contains_key(exprs) {
+            let v: Vec<Regex> = exprs.iter().map(|i| self.single[*i].clone()).collect();
+            let set = RegexSet::new(exprs.iter().map(|i| RX[*i])).expect("regex set");
+            self.sets.insert(exprs.to_vec(), (v, set));
+        }
+    }
+}
+
+thread_local! {
+    static MENU: RefCell<Menu> = RefCell::new(Menu::new());
+}
+
+/// one match of one expression on the searched slice, in absolute codepoint offsets
+#[derive(Clone, Debug, PartialEq, Eq, PartialOrd, Ord)]
+struct M {
+    overall: R,
+    /// (capture group number, begin, end); group number 0 = the whole match of an expression without groups
+    groups: Vec<(usize, usize, usize)>,
+}
+
+fn b2c(slice: &str, byte: usize) -> usize {
+    slice[..byte].chars().count()
+}
+
+fn expected_matches(re: &Regex, slice: &str, b0: usize) -> Vec<M> {
+    let mut out = Vec::new();
+    if re.captures_len() > 1 {
+        for caps in re.captures_iter(slice) {
+            let m0 = caps.get(0).unwrap();
+            let mut groups = Vec::new();
+            for gi in 1..caps.len() {
+                if let Some(g) = caps.get(gi) {
+                    groups.push((gi, b0 + b2c(slice, g.start()), b0 + b2c(slice, g.end())));
+                }
+            }
+            out.push(M { overall: (b0 + b2c(slice, m0.start()), b0 + b2c(slice, m0.end())), groups });
+        }
+    } else {
+        for m in re.find_iter(slice) {
+            let r = (b0 + b2c(slice, m.start()), b0 + b2c(slice, m.end()));
+            out.push(M { overall: r, groups: vec![(0, r.0, r.1)] });
+        }
+    }
+    out
+}
+
+// ------------------------------------------------------------------------------------------------
+// running the library
+
+#[derive(Clone, Debug, PartialEq, Eq)]
+struct Got {
+    b: usize,
+    e: usize,
+    t: String,
+}
+
+type RGot = (usize, Vec<Got>, Vec<usize>);
+
+enum LibOut {
+    List(Vec<Got>, bool),
+    Trim(Result<Got, String>),
+    Seq(Option<Vec<Got>>),
+    Regex(Vec<RGot>, bool),
+    RegexErr(String),
+    StoreList(Vec<(String, Got)>, bool),
+    StoreRegex(Vec<(String, RGot)>, bool),
+}
+
+fn got(ts: &ResultTextSelection) -> Got {
+    Got { b: ts.begin(), e: ts.end(), t: ts.text().to_string() }
+}
+
+fn drain<'a>(mut it: impl Iterator<Item = ResultTextSelection<'a>>) -> (Vec<Got>, bool) {
+    let mut v = Vec::new();
+    loop {
+        if v.len() >= CAP {
+            return (v, true);
+        }
+        match it.next() {
+            Some(ts) => v.push(got(&ts)),
+            None => return (v, false),
+        }
+    }
+}
+
+fn rgot(m: &stam::FindRegexMatch) -> RGot {
+    (m.expression_index(), m.textselections().iter().map(got).collect(), m.capturegroups().to_vec())
+}
+
+macro_rules! exec_on {
+    ($r:expr, $op:expr) => {{
+        let r = $r;
+        match $op {
+            Op::Find { needle, nocase } => {
+                let (v, c) = if *nocase { drain(r.find_text_nocase(needle)) } else { drain(r.find_text(needle)) };
+                LibOut::List(v, c)
+            }
+            Op::Split { delim } => {
+                let (v, c) = drain(r.split_text(delim));
+                LibOut::List(v, c)
+            }
+            Op::Trim { set, with_fn } => {
+                let x = if *with_fn { r.trim_text_with(|c| set.contains(&c)) } else { r.trim_text(set) };
+                LibOut::Trim(x.map(|ts| got(&ts)).map_err(|e| format!("{}", e)))
+            }
+            Op::Seq { frags, skip, cs } => {
+                let fr: Vec<&str> = frags.iter().map(|s| s.as_str()).collect();
+                let sk = *skip;
+                let x = r.find_text_sequence(&fr, |c| skip_fn(sk, c), *cs);
+                LibOut::Seq(x.map(|v| v.iter().map(got).collect()))
+            }
+            Op::Regex { exprs, overlap, preset } => MENU.with(|m| {
+                let mut m = m.borrow_mut();
+                m.ensure(exprs);
+                let (res, set) = m.sets.get(exprs.as_slice()).unwrap();
+                let set = if *preset { Some(set) } else { None };
+                let found = r.find_text_regex(res, set, *overlap);
+                let out = match found {
+                    Ok(mut it) => {
+                        let mut v = Vec::new();
+                        let mut capped = false;
+                        loop {
+                            if v.len() >= CAP {
+                                capped = true;
+                                break;
+                            }
+                            match it.next() {
+                                Some(x) => v.push(rgot(&x)),
+                                None => break,
+                            }
+                        }
+                        LibOut::Regex(v, capped)
+                    }
+                    Err(e) => LibOut::RegexErr(format!("{}", e)),
+                };
+                out
+            }),
+            _ => unreachable!("store-level operation on a text receiver"),
+        }
+    }};
+}
+
+struct Ctx<'s> {
+    text: &'s str,
+    chars: Vec<char>,
+    plain: &'s AnnotationStore,
+    bound: Option<&'s AnnotationStore>,
+    two: Option<&'s AnnotationStore>,
+}
+
+fn build_store(text: &str, annotate: &[R], second: Option<&str>, config: Option<Config>) -> AnnotationStore {
+    let mut store = match config {
+        Some(c) => AnnotationStore::new(c),
+        None => AnnotationStore::default(),
+    };
+    store
+        .add_resource(TextResourceBuilder::new().with_id("r").with_text(text))
+        .expect("add_resource r");
+    if let Some(t2) = second {
+        store
+            .add_resource(TextResourceBuilder::new().with_id("r2").with_text(t2))
+            .expect("add_resource r2");
+    }
+    for (i, r) in annotate.iter().enumerate() {
+        store
+            .annotate(
+                AnnotationBuilder::new()
+                    .with_id(format!("k{}", i))
+                    .with_target(SelectorBuilder::textselector("r", Offset::simple(r.0, r.1))),
+            )
+            .expect("annotate known selection");
+    }
+    store
+}
+
+fn exec(ctx: &Ctx, scope: Scope, recv: Recv, op: &Op) -> Result<LibOut, String> {
+    catch(|| {
+        match op {
+            Op::StoreFind { needle, nocase } => {
+                let store = ctx.two.expect("two-resource store");
+                fn drain_res<'a>(mut it: impl Iterator<Item = ResultTextSelection<'a>>) -> LibOut {
+                    let mut v = Vec::new();
+                    for _ in 0..CAP {
+                        match it.next() {
+                            Some(ts) => v.push((ts.resource().id().unwrap_or("?").to_string(), got(&ts))),
+                            None => return LibOut::StoreList(v, false),
+                        }
+                    }
+                    LibOut::StoreList(v, true)
+                }
+                return if *nocase { drain_res(store.find_text_nocase(needle)) } else { drain_res(store.find_text(needle)) };
+            }
+            Op::StoreRegex { exprs, overlap } => {
+                let store = ctx.two.expect("two-resource store");
+                return MENU.with(|m| {
+                    let mut m = m.borrow_mut();
+                    m.ensure(exprs);
+                    let (res, _) = m.sets.get(exprs.as_slice()).unwrap();
+                    let none: Option<RegexSet> = None;
+                    let mut v = Vec::new();
+                    let mut it = store.find_text_regex(res, &none, *overlap);
+                    for _ in 0..CAP {
+                        match it.next() {
+                            Some(x) => v.push((x.resource().id().unwrap_or("?").to_string(), rgot(&x))),
+                            None => return LibOut::StoreRegex(v, false),
+                        }
+                    }
+                    LibOut::StoreRegex(v, true)
+                });
+            }
+            _ => {}
+        }
+        let store = match recv {
+            Recv::Plain => ctx.plain,
+            _ => ctx.bound.expect("annotated store"),
+        };
+        let res = store.resource("r").expect("resource r");
+        match scope {
+            Scope::Res => exec_on!(&res, op),
+            Scope::Sel(b, e) => {
+                let sel = res
+                    .textselection(&Offset::simple(b, e))
+                    .expect("harness: scope selection must be valid");
+                match recv {
+                    Recv::Item => {
+                        let item = sel.as_resultitem().expect("harness: scope selection must be bound");
+                        exec_on!(item, op)
+                    }
+                    Recv::Bound => {
+                        assert!(sel.as_resultitem().is_some(), "harness: scope selection must be bound");
+                        exec_on!(&sel, op)
+                    }
+                    Recv::Plain => exec_on!(&sel, op),
+                }
+            }
+        }
+    })
+}
+
+// ------------------------------------------------------------------------------------------------
+// oracles on plain strings
+
+fn lower_len_changes(c: char) -> bool {
+    c.to_lowercase().map(|x| x.len_utf8()).sum::<usize>() != c.len_utf8()
+}
+fn has_lc(s: &str) -> bool {
+    s.chars().any(lower_len_changes)
+}
+
+/// text class used in signatures: `lc` when case folding is part of the operation and the searched text or
+/// the needle contains a codepoint whose lower-case form has a different UTF-8 length, otherwise `plain`
+fn tclass(slice: &str, needle: &str, folding: bool) -> &'static str {
+    if folding && (has_lc(slice) || has_lc(needle)) {
+        "lc"
+    } else {
+        "plain"
+    }
+}
+
+/// class of a panic message: the text before the first colon (the `expect` label) and the source file
+fn panic_class(p: &str) -> String {
+    let head = p.split(": ").next().unwrap_or(p);
+    let head = head.split(" @").next().unwrap_or(head);
+    let file = p.rsplit_once(" @").map(|x| x.1).unwrap_or("");
+    format!("panic:{}@{}", msg_class(head), file)
+}
+
+fn exp_find(slice: &str, b0: usize, needle: &str) -> Vec<R> {
+    let n = needle.chars().count();
+    slice
+        .match_indices(needle)
+        .map(|(bp, _)| {
+            let s = b0 + b2c(slice, bp);
+            (s, s + n)
+        })
+        .collect()
+}
+
+/// case-insensitive occurrence starting exactly at codepoint `s`: the unique end `e` with
+/// lowercase(chars[s..e]) == lowered needle
+fn nocase_at(chars: &[char], s: usize, lneedle: &str) -> Option<usize> {
+    let mut acc = String::new();
+    for e in s..chars.len() {
+        acc.extend(chars[e].to_lowercase());
+        if acc == lneedle {
+            return Some(e + 1);
+        }
+        if !lneedle.starts_with(acc.as_str()) {
+            return None;
+        }
+    }
+    None
+}
+
+fn exact_at(chars: &[char], s: usize, needle: &[char]) -> Option<usize> {
+    if s + needle.len() <= chars.len() && &chars[s..s + needle.len()] == needle {
+        Some(s + needle.len())
+    } else {
+        None
+    }
+}
+
+/// leftmost, non-overlapping case-insensitive matches (needle non-empty), relative to `chars`
+fn exp_find_nocase(chars: &[char], b0: usize, needle: &str) -> Vec<R> {
+    let ln = needle.to_lowercase();
+    let mut out = Vec::new();
+    let mut p = 0;
+    while p < chars.len() {
+        match nocase_at(chars, p, &ln) {
+            Some(e) => {
+                out.push((b0 + p, b0 + e));
+                p = e;
+            }
+            None => p += 1,
+        }
+    }
+    out
+}
+
+fn exp_split(slice: &str, b0: usize, delim: &str) -> Vec<R> {
+    let base = slice.as_ptr() as usize;
+    slice
+        .split(delim)
+        .map(|piece| {
+            let bp = piece.as_ptr() as usize - base;
+            let s = b0 + b2c(slice, bp);
+            (s, s + piece.chars().count())
+        })
+        .collect()
+}
+
+/// `None` = everything is trimmed away (the plain result is the empty string)
+fn exp_trim(chars: &[char], b0: usize, set: &[char]) -> Option<R> {
+    let lead = chars.iter().take_while(|c| set.contains(c)).count();
+    if lead == chars.len() && !chars.is_empty() {
+        return None;
+    }
+    let trail = chars.iter().rev().take_while(|c| set.contains(c)).count();
+    Some((b0 + lead, b0 + chars.len() - trail))
+}
+
+/// Is there an assignment of the fragments to occurrences, in order, such that the text before the first
+/// occurrence and between consecutive occurrences consists of skippable characters only (strictest reading)?
+fn seq_exists(chars: &[char], frags: &[String], cs: bool, skip: u8, pos: usize, i: usize) -> bool {
+    if i == frags.len() {
+        return true;
+    }
+    let fchars: Vec<char> = frags[i].chars().collect();
+    let lf = frags[i].to_lowercase();
+    let mut s = pos;
+    loop {
+        let m = if cs { exact_at(chars, s, &fchars) } else { nocase_at(chars, s, &lf) };
+        if let Some(e) = m {
+            if seq_exists(chars, frags, cs, skip, e, i + 1) {
+                return true;
+            }
+        }
+        if s >= chars.len() || !skip_fn(skip, chars[s]) {
+            return false;
+        }
+        s += 1;
+    }
+}
+
+fn slice_of(chars: &[char], r: R) -> String {
+    if r.0 <= r.1 && r.1 <= chars.len() {
+        chars[r.0..r.1].iter().collect()
+    } else {
+        String::from("<out of bounds>")
+    }
+}
+
+fn is_subseq(small: &[R], big: &[R]) -> bool {
+    let mut it = big.iter();
+    small.iter().all(|x| it.any(|y| y == x))
+}
+
+/// symptom of a difference between the expected and the returned list of ranges
+fn classify(exp: &[R], got: &[R], scope: R) -> &'static str {
+    if got.iter().any(|r| r.0 < scope.0 || r.1 > scope.1 || r.0 > r.1) {
+        "outside-range"
+    } else if got.windows(2).any(|w| w[1].0 < w[0].0) {
+        "unordered"
+    } else if got.len() < exp.len() && is_subseq(got, exp) {
+        "missing"
+    } else if got.len() > exp.len() && is_subseq(exp, got) {
+        "extra"
+    } else if got.len() == exp.len() {
+        "wrong-offset"
+    } else {
+        "wrong-text"
+    }
+}
+
+fn ranges(v: &[Got]) -> Vec<R> {
+    v.iter().map(|g| (g.b, g.e)).collect()
+}
+
+fn scope_class(scope: Scope, recv: Recv) -> &'static str {
+    match (scope, recv) {
+        (Scope::Res, _) => "res",
+        (Scope::Sel(0, _), Recv::Item) => "item:b=0",
+        (Scope::Sel(_, _), Recv::Item) => "item:b>0",
+        (Scope::Sel(0, _), _) => "sel:b=0",
+        (Scope::Sel(_, _), _) => "sel:b>0",
+    }
+}
+
+// ------------------------------------------------------------------------------------------------
+// the check of one case
+
+struct Outcome {
+    calls: u64,
+    nontrivial: bool,
+}
+
+fn check_op(rep: &Reporter, ctx: &Ctx, scope: Scope, recv: Recv, op: &Op, ord: u64, verbose: bool) -> Outcome {
+    let n = ctx.chars.len();
+    let sr: R = match scope {
+        Scope::Res => (0, n),
+        Scope::Sel(b, e) => (b, e),
+    };
+    let schars = &ctx.chars[sr.0..sr.1];
+    let slice: String = schars.iter().collect();
+    let sclass = scope_class(scope, recv);
+    let fail = |opclass: &str, symptom: &str, tcl: &str, detail: String| {
+        let mut sig = format!("{}|{}", op.name(), sclass);
+        for part in [opclass, symptom, tcl] {
+            if !part.is_empty() && part != "plain" {
+                sig.push('|');
+                sig.push_str(part);
+            }
+        }
+        if verbose {
+            println!("  FAIL {} :: {}", sig, detail);
+        }
+        rep.fail(
+            &sig,
+            ord,
+            || {
+                format!(
+                    "text={:?} scope={:?} recv={} op={}: {}",
+                    ctx.text,
+                    scope,
+                    recv.name(),
+                    op.to_json(),
+                    detail
+                )
+            },
+            || case_json(ctx.text, scope, recv, op),
+        );
+    };
+    // every returned selection must carry the text found at its reported absolute offsets
+    let text_ok = |v: &[Got]| -> Option<String> {
+        for g in v {
+            if g.b <= g.e && g.e <= n && g.t != slice_of(&ctx.chars, (g.b, g.e)) {
+                return Some(format!("selection {}..{} reports text {:?} but the resource has {:?} there", g.b, g.e, g.t, slice_of(&ctx.chars, (g.b, g.e))));
+            }
+        }
+        None
+    };
+    let lib = exec(ctx, scope, recv, op);
+    let mut out = Outcome { calls: 1, nontrivial: false };
+    match op {
+        Op::Find { needle, nocase } => {
+            let oc = if needle.is_empty() { "needle=empty" } else { "needle=nonempty" };
+            let tcl = if needle.is_empty() { "plain" } else { tclass(&slice, needle, *nocase) };
+            let exp = if needle.is_empty() {
+                Vec::new()
+            } else if *nocase {
+                exp_find_nocase(schars, sr.0, needle)
+            } else {
+                exp_find(&slice, sr.0, needle)
+            };
+            out.nontrivial = !exp.is_empty();
+            if verbose {
+                println!("  plain string operation: {:?}", exp);
+            }
+            match lib {
+                Err(p) => fail(oc, &panic_class(&p), tcl, format!("panicked: {}", p)),
+                Ok(LibOut::List(v, capped)) => {
+                    if verbose {
+                        println!("  library: {:?}{}", v, if capped { " (iteration cap hit)" } else { "" });
+                    }
+                    if capped {
+                        fail(oc, "non-terminating", tcl, format!("iterator still yields after {} items (first: {:?})", CAP, &v[..2]));
+                    } else if needle.is_empty() {
+                        // result for the empty needle is not pinned down: only termination is required
+                    } else if let Some(d) = text_ok(&v) {
+                        fail(oc, "text-mismatch", tcl, d);
+                    } else if ranges(&v) != exp {
+                        fail(oc, classify(&exp, &ranges(&v), sr), tcl, format!("library {:?}, plain string search {:?}", ranges(&v), exp));
+                    }
+                }
+                Ok(_) => unreachable!(),
+            }
+        }
+        Op::Split { delim } => {
+            let oc = if delim.is_empty() { "delim=empty" } else { "delim=nonempty" };
+            let tcl = tclass(&slice, delim, false);
+            let exp = exp_split(&slice, sr.0, delim);
+            out.nontrivial = exp.len() > 1;
+            if verbose {
+                println!("  plain string operation: {:?}", exp);
+            }
+            match lib {
+                Err(p) => fail(oc, &panic_class(&p), tcl, format!("panicked: {}", p)),
+                Ok(LibOut::List(v, capped)) => {
+                    if verbose {
+                        println!("  library: {:?}", v);
+                    }
+                    if capped {
+                        fail(oc, "non-terminating", tcl, format!("iterator still yields after {} items", CAP));
+                    } else if let Some(d) = text_ok(&v) {
+                        fail(oc, "text-mismatch", tcl, d);
+                    } else if ranges(&v) != exp {
+                        fail(oc, classify(&exp, &ranges(&v), sr), tcl, format!("library pieces {:?}, str::split pieces {:?}", ranges(&v), exp));
+                    }
+                }
+                Ok(_) => unreachable!(),
+            }
+        }
+        Op::Trim { set, .. } => {
+            let oc = if set.is_empty() { "set=empty" } else { "set=nonempty" };
+            let tcl = tclass(&slice, "", false);
+            let exp = exp_trim(schars, sr.0, set);
+            out.nontrivial = match exp {
+                Some(r) => r != sr,
+                None => true,
+            };
+            if verbose {
+                println!("  plain string operation: {:?} (None = everything trimmed)", exp);
+            }
+            match lib {
+                Err(p) => fail(oc, &panic_class(&p), tcl, format!("panicked: {}", p)),
+                Ok(LibOut::Trim(x)) => {
+                    if verbose {
+                        println!("  library: {:?}", x);
+                    }
+                    match (exp, x) {
+                        (Some(want), Ok(g)) => {
+                            if let Some(d) = text_ok(std::slice::from_ref(&g)) {
+                                fail(oc, "text-mismatch", tcl, d);
+                            } else if (g.b, g.e) != want {
+                                fail(oc, classify(&[want], &[(g.b, g.e)], sr), tcl, format!("library {:?}, trimmed plain string is at {:?}", (g.b, g.e), want));
+                            }
+                        }
+                        (Some(want), Err(e)) => fail(oc, "err", tcl, format!("library returned Err({}), trimmed plain string is at {:?}", e, want)),
+                        (None, Ok(g)) => {
+                            // everything trimmed: a zero-width selection inside the range or an Err are both accepted
+                            if g.b != g.e || g.b < sr.0 || g.e > sr.1 {
+                                fail(oc, if g.b != g.e { "wrong-text" } else { "outside-range" }, tcl, format!("library {:?}, but the trimmed plain string is empty", (g.b, g.e)));
+                            }
+                        }
+                        (None, Err(_)) => {}
+                    }
+                }
+                Ok(_) => unreachable!(),
+            }
+        }
+        Op::Seq { frags, skip, cs } => {
+            let oc = if *cs { "cs" } else { "nocase" };
+            let allfr: String = frags.concat();
+            let tcl = tclass(&slice, &allfr, !*cs);
+            let exists = seq_exists(schars, frags, *cs, *skip, 0, 0);
+            out.nontrivial = exists;
+            if verbose {
+                println!("  an in-order assignment with skippable gaps (strict reading) exists: {}", exists);
+            }
+            match lib {
+                Err(p) => fail(oc, &panic_class(&p), tcl, format!("panicked: {}", p)),
+                Ok(LibOut::Seq(x)) => {
+                    if verbose {
+                        println!("  library: {:?}", x);
+                    }
+                    match x {
+                        None => {
+                            if exists {
+                                fail(oc, "missing", tcl, "library returned None although the fragments occur in order with only skippable text before and between them".into());
+                            }
+                        }
+                        Some(v) => {
+                            let rs = ranges(&v);
+                            let mut problem: Option<(&str, String)> = None;
+                            if v.len() != frags.len() {
+                                problem = Some(("wrong-count", format!("{} selections for {} fragments", v.len(), frags.len())));
+                            } else if rs.iter().any(|r| r.0 < sr.0 || r.1 > sr.1 || r.0 > r.1) {
+                                problem = Some(("outside-range", format!("selections {:?} leave the searched range {:?}", rs, sr)));
+                            } else if let Some(d) = text_ok(&v) {
+                                problem = Some(("text-mismatch", d));
+                            } else {
+                                for (i, g) in v.iter().enumerate() {
+                                    let same = if *cs { g.t == frags[i] } else { g.t.to_lowercase() == frags[i].to_lowercase() };
+                                    if !same {
+                                        problem = Some(("wrong-text", format!("selection {} has text {:?}, fragment is {:?}", i, g.t, frags[i])));
+                                        break;
+                                    }
+                                    if i > 0 {
+                                        if g.b < v[i - 1].e {
+                                            problem = Some(("unordered", format!("selections {:?} are not in order / overlap", rs)));
+                                            break;
+                                        }
+                                        if ctx.chars[v[i - 1].e..g.b].iter().any(|c| !skip_fn(*skip, *c)) {
+                                            problem = Some(("gap-not-skippable", format!("text between selections {:?} contains characters that may not be skipped", rs)));
+                                            break;
+                                        }
+                                    }
+                                }
+                            }
+                            if let Some((sym, d)) = problem {
+                                fail(oc, sym, tcl, d);
+                            }
+                        }
+                    }
+                }
+                Ok(_) => unreachable!(),
+            }
+        }
+        Op::Regex { exprs, overlap, .. } => {
+            let hascap = |k: usize| MENU.with(|m| m.borrow().single[exprs[k]].captures_len() > 1);
+            let anycap = (0..exprs.len()).any(|k| hascap(k));
+            // selection among several expressions: configuration class; offsets: class of the offending expression
+            let oc = format!(
+                "{}{}",
+                if exprs.len() == 1 { "single" } else if *overlap { "multi:overlap" } else { "multi:nooverlap" },
+                if anycap { "+cap" } else { "" }
+            );
+            let capclass = |k: Option<usize>| -> String {
+                match k {
+                    Some(k) => (if hascap(k) { "cap" } else { "nocap" }).to_string(),
+                    None => oc.clone(),
+                }
+            };
+            let tcl = tclass(&slice, "", false);
+            let exp: Vec<Vec<M>> = exprs
+                .iter()
+                .map(|i| MENU.with(|m| expected_matches(&m.borrow().single[*i], &slice, sr.0)))
+                .collect();
+            out.nontrivial = exp.iter().any(|v| !v.is_empty());
+            if verbose {
+                println!("  regex crate on the slice {:?}: {:?}", slice, exp);
+            }
+            match lib {
+                Err(p) => fail("", &panic_class(&p), tcl, format!("panicked: {}", p)),
+                Ok(LibOut::RegexErr(e)) => fail(&oc, "err", tcl, format!("find_text_regex returned Err({})", e)),
+                Ok(LibOut::Regex(v, capped)) => {
+                    if verbose {
+                        println!("  library: {:?}", v);
+                    }
+                    if capped {
+                        fail(&oc, "non-terminating", tcl, format!("iterator still yields after {} items", CAP));
+                    } else if let Some((sym, k, d)) = check_regex_result(&exp, &v, *overlap, sr, &ctx.chars) {
+                        fail(&capclass(k), sym, tcl, d);
+                    }
+                }
+                Ok(_) => unreachable!(),
+            }
+        }
+        Op::StoreFind { needle, nocase } => {
+            let oc = "needle=nonempty";
+            let tcl = tclass(ctx.text, needle, *nocase);
+            let r2chars: Vec<char> = R2_TEXT.chars().collect();
+            let (e1, e2) = if *nocase {
+                (exp_find_nocase(&ctx.chars, 0, needle), exp_find_nocase(&r2chars, 0, needle))
+            } else {
+                (exp_find(ctx.text, 0, needle), exp_find(R2_TEXT, 0, needle))
+            };
+            out.nontrivial = !e1.is_empty();
+            match lib {
+                Err(p) => fail(oc, &panic_class(&p), tcl, format!("panicked: {}", p)),
+                Ok(LibOut::StoreList(v, capped)) => {
+                    if verbose {
+                        println!("  plain string operation: r={:?} r2={:?}\n  library: {:?}", e1, e2, v);
+                    }
+                    if capped {
+                        fail(oc, "non-terminating", tcl, format!("iterator still yields after {} items", CAP));
+                    } else {
+                        let g1: Vec<R> = v.iter().filter(|x| x.0 == "r").map(|x| (x.1.b, x.1.e)).collect();
+                        let g2: Vec<R> = v.iter().filter(|x| x.0 == "r2").map(|x| (x.1.b, x.1.e)).collect();
+                        if g1.len() + g2.len() != v.len() {
+                            fail(oc, "unknown-resource", tcl, format!("results {:?}", v));
+                        } else if g1 != e1 {
+                            fail(oc, classify(&e1, &g1, (0, n)), tcl, format!("resource r: library {:?}, plain string search {:?}", g1, e1));
+                        } else if g2 != e2 {
+                            fail(oc, &format!("second-resource:{}", classify(&e2, &g2, (0, r2chars.len()))), tcl, format!("resource r2 ({:?}): library {:?}, plain string search {:?}", R2_TEXT, g2, e2));
+                        }
+                    }
+                }
+                Ok(_) => unreachable!(),
+            }
+        }
+        Op::StoreRegex { exprs, overlap } => {
+            let anycap = exprs.iter().any(|i| MENU.with(|m| m.borrow().single[*i].captures_len() > 1));
+            let oc = (if anycap { "cap" } else { "nocap" }).to_string();
+            let tcl = tclass(ctx.text, "", false);
+            let r2chars: Vec<char> = R2_TEXT.chars().collect();
+            let e1: Vec<Vec<M>> = exprs.iter().map(|i| MENU.with(|m| expected_matches(&m.borrow().single[*i], ctx.text, 0))).collect();
+            let e2: Vec<Vec<M>> = exprs.iter().map(|i| MENU.with(|m| expected_matches(&m.borrow().single[*i], R2_TEXT, 0))).collect();
+            out.nontrivial = e1.iter().any(|v| !v.is_empty());
+            match lib {
+                Err(p) => fail(&oc, &panic_class(&p), tcl, format!("panicked: {}", p)),
+                Ok(LibOut::StoreRegex(v, capped)) => {
+                    if verbose {
+                        println!("  regex crate: r={:?} r2={:?}\n  library: {:?}", e1, e2, v);
+                    }
+                    if capped {
+                        fail(&oc, "non-terminating", tcl, format!("iterator still yields after {} items", CAP));
+                    } else {
+                        let g1: Vec<RGot> = v.iter().filter(|x| x.0 == "r").map(|x| x.1.clone()).collect();
+                        let g2: Vec<RGot> = v.iter().filter(|x| x.0 == "r2").map(|x| x.1.clone()).collect();
+                        if g1.len() + g2.len() != v.len() {
+                            fail(&oc, "unknown-resource", tcl, format!("results {:?}", v));
+                        } else if let Some((sym, _, d)) = check_regex_result(&e1, &g1, *overlap, (0, n), &ctx.chars) {
+                            fail(&oc, sym, tcl, format!("resource r: {}", d));
+                        } else if let Some((sym, _, d)) = check_regex_result(&e2, &g2, *overlap, (0, r2chars.len()), &r2chars) {
+                            fail(&oc, &format!("second-resource:{}", sym), tcl, format!("resource r2 ({:?}): {}", R2_TEXT, d));
+                        }
+                    }
+                }
+                Ok(_) => unreachable!(),
+            }
+        }
+    }
+    out
+}
+
+/// Compare the library's regex results with the matches of the `regex` crate on the slice.
+/// `exp[k]` = all matches of the k-th expression of the call. Returns (symptom, position of the expression a
+/// wrong offset can be attributed to - `None` for symptoms that concern the selection among several
+/// expressions -, detail).
+fn check_regex_result(exp: &[Vec<M>], got: &[RGot], overlap: bool, sr: R, chars: &[char]) -> Option<(&'static str, Option<usize>, String)> {
+    // normalise the library's results; matches without any participating group are ignored on both sides
+    let mut g: Vec<(usize, Vec<(usize, usize, usize)>)> = Vec::new();
+    for (k, sels, groups) in got {
+        for s in sels {
+            if s.b <= s.e && s.e <= chars.len() && s.t != slice_of(chars, (s.b, s.e)) {
+                return Some(("text-mismatch", Some(*k), format!("selection {}..{} reports text {:?}", s.b, s.e, s.t)));
+            }
+        }
+        if *k >= exp.len() {
+            return Some(("wrong-expression", None, format!("expression index {} out of {}", k, exp.len())));
+        }
+        if sels.is_empty() {
+            continue;
+        }
+        let triples: Vec<(usize, usize, usize)> = if groups.is_empty() {
+            if sels.len() != 1 {
+                return Some(("wrong-groups", Some(*k), format!("{} selections but no capture group numbers", sels.len())));
+            }
+            vec![(0, sels[0].b, sels[0].e)]
+        } else {
+            if groups.len() != sels.len() {
+                return Some(("wrong-groups", Some(*k), format!("{} selections but {} capture group numbers", sels.len(), groups.len())));
+            }
+            groups.iter().zip(sels).map(|(gi, s)| (*gi, s.b, s.e)).collect()
+        };
+        g.push((*k, triples));
+    }
+    let flat = |v: &[(usize, Vec<(usize, usize, usize)>)]| -> Vec<R> { v.iter().flat_map(|x| x.1.iter().map(|t| (t.1, t.2))).collect() };
+    let e: Vec<Vec<&M>> = exp.iter().map(|v| v.iter().filter(|m| !m.groups.is_empty()).collect()).collect();
+    let gflat = flat(&g);
+    if let Some((k, _)) = g.iter().find(|x| x.1.iter().any(|t| t.1 < sr.0 || t.2 > sr.1 || t.1 > t.2)) {
+        return Some(("outside-range", Some(*k), format!("library selections {:?} leave the searched range {:?}", gflat, sr)));
+    }
+    if exp.len() == 1 {
+        let want: Vec<(usize, Vec<(usize, usize, usize)>)> = e[0].iter().map(|m| (0, m.groups.clone())).collect();
+        if g != want {
+            let wflat = flat(&want);
+            let sym = if gflat == wflat { "wrong-groups" } else { classify(&wflat, &gflat, sr) };
+            return Some((sym, Some(0), format!("library {:?}, regex crate {:?} (group, begin, end)", g.iter().map(|x| &x.1).collect::<Vec<_>>(), want.iter().map(|x| &x.1).collect::<Vec<_>>())));
+        }
+        return None;
+    }
+    // several expressions: every result must be a genuine match of its expression
+    let lookup = |k: usize, t: &Vec<(usize, usize, usize)>| -> Option<&M> { e[k].iter().find(|m| &m.groups == t).copied() };
+    let mut resolved: Vec<(usize, &M)> = Vec::new();
+    for (k, t) in &g {
+        match lookup(*k, t) {
+            Some(m) => resolved.push((*k, m)),
+            None => return Some(("wrong-offset", Some(*k), format!("library reports {:?} for expression #{}, the regex crate finds {:?}", t, k, e[*k]))),
+        }
+    }
+    // order: no result may come after one that lies entirely later under both readings of "position of a match"
+    let keys = |m: &M| -> (usize, usize) {
+        let k1 = m.groups.iter().map(|t| t.1).min().unwrap_or(m.overall.0);
+        (m.overall.0.min(k1), m.overall.0.max(k1))
+    };
+    for i in 0..resolved.len() {
+        for j in i + 1..resolved.len() {
+            if keys(resolved[j].1).1 < keys(resolved[i].1).0 {
+                return Some(("unordered", None, format!("result #{} {:?} is returned before result #{} {:?}", i, resolved[i].1, j, resolved[j].1)));
+            }
+        }
+    }
+    if overlap {
+        let mut want: Vec<(usize, Vec<(usize, usize, usize)>)> = e.iter().enumerate().flat_map(|(k, v)| v.iter().map(move |m| (k, m.groups.clone()))).collect();
+        let mut have = g.clone();
+        want.sort();
+        have.sort();
+        if want != have {
+            let sym = if have.len() < want.len() { "missing" } else if have.len() > want.len() { "extra" } else { "wrong-offset" };
+            return Some((sym, None, format!("library (sorted) {:?}, all matches of all expressions {:?}", have, want)));
+        }
+    } else {
+        // no two results of different expressions may overlap (hull of the returned selections, non-empty ones)
+        let hull = |m: &M| -> R { (m.groups.iter().map(|t| t.1).min().unwrap(), m.groups.iter().map(|t| t.2).max().unwrap()) };
+        for i in 0..resolved.len() {
+            for j in i + 1..resolved.len() {
+                if resolved[i].0 == resolved[j].0 && resolved[i].1 == resolved[j].1 {
+                    return Some(("extra", None, format!("match {:?} returned twice", resolved[i].1)));
+                }
+                let (a, b) = (hull(resolved[i].1), hull(resolved[j].1));
+                if resolved[i].0 != resolved[j].0 && a.0 < a.1 && b.0 < b.1 && a.0 < b.1 && b.0 < a.1 {
+                    return Some(("overlap", None, format!("allow_overlap=false but results {:?} (expression #{}) and {:?} (expression #{}) overlap", resolved[i].1, resolved[i].0, resolved[j].1, resolved[j].0)));
+                }
+            }
+        }
+        // maximality: a match that touches no returned match at all must itself have been returned
+        for (k, v) in e.iter().enumerate() {
+            for m in v {
+                if resolved.iter().any(|(k2, m2)| *k2 == k && *m2 == *m) {
+                    continue;
+                }
+                let free = resolved.iter().all(|(_, r)| m.overall.1 < r.overall.0 || r.overall.1 < m.overall.0);
+                if free {
+                    return Some(("missing", None, format!("match {:?} of expression #{} touches none of the returned matches but is not returned", m, k)));
+                }
+            }
+        }
+    }
+    None
+}
+
+// ------------------------------------------------------------------------------------------------
+// segmentation
+
+fn seg_case_json(text: &str, known: &[R], milestone: usize) -> Value {
+    json!({"kind": "seg", "text": text, "known": known, "milestone_interval": milestone})
+}
+
+/// All segmentation checks for one set of known selections. Returns (cases, calls, nontrivial cases).
+fn check_seg(rep: &Reporter, text: &str, known: &[R], milestone: usize, ord: u64, verbose: bool) -> (u64, u64, u64) {
+    let chars: Vec<char> = text.chars().collect();
+    let n = chars.len();
+    let config = if milestone == 0 { None } else { Some(Config::default().with_milestone_interval(milestone)) };
+    let store = match catch(|| build_store(text, known, None, config)) {
+        Ok(s) => s,
+        Err(p) => {
+            rep.fail(
+                &format!("segmentation|setup|panic:{}", msg_class(&p)),
+                ord,
+                || format!("text={:?} known={:?}: building the store panicked: {}", text, known, p),
+                || seg_case_json(text, known, milestone),
+            );
+            return (1, 0, 0);
+        }
+    };
+    let store = &store;
+    let mut cuts_all: Vec<usize> = known.iter().flat_map(|r| [r.0, r.1]).collect();
+    cuts_all.sort();
+    cuts_all.dedup();
+    let kind_of = |p: usize| -> &'static str {
+        let zw = known.iter().any(|r| r.0 == p && r.1 == p);
+        let b = known.iter().any(|r| r.0 == p && r.1 != p);
+        let e = known.iter().any(|r| r.1 == p && r.0 != p);
+        match (zw, b, e) {
+            (_, true, true) => "begin+end",
+            (_, true, false) => "begin",
+            (_, false, true) => "end",
+            (true, false, false) => "zerowidth",
+            _ => "none",
+        }
+    };
+    let (mut cases, mut calls, mut nontrivial) = (0u64, 0u64, 0u64);
+    let mut scopes: Vec<(&'static str, R)> = vec![("resource.segmentation", (0, n))];
+    for r in all_ranges(n) {
+        scopes.push(("resource.segmentation_in_range", r));
+        scopes.push(("textselection.segmentation", r));
+    }
+    for (si, (recv, sr)) in scopes.iter().enumerate() {
+        let sr = *sr;
+        cases += 1;
+        calls += 1;
+        let lib: Result<(Vec<Got>, bool), String> = catch(|| {
+            let res = store.resource("r").expect("resource r");
+            match *recv {
+                "resource.segmentation" => drain(res.segmentation()),
+                "resource.segmentation_in_range" => drain(res.segmentation_in_range(sr.0, sr.1)),
+                _ => {
+                    let sel = res.textselection(&Offset::simple(sr.0, sr.1)).expect("harness: range must be valid");
+                    let v = drain(sel.segmentation());
+                    v
+                }
+            }
+        });
+        let mut bounds: Vec<usize> = vec![sr.0];
+        bounds.extend(cuts_all.iter().copied().filter(|p| *p > sr.0 && *p < sr.1));
+        bounds.push(sr.1);
+        let exp: Vec<R> = bounds.windows(2).map(|w| (w[0], w[1])).collect();
+        if exp.len() > 1 {
+            nontrivial += 1;
+        }
+        let ms = if milestone == 0 { String::new() } else { "|milestones".to_string() };
+        let fail = |symptom: &str, detail: String| {
+            let sig = format!("segmentation|{}{}|{}", recv, ms, symptom);
+            if verbose {
+                println!("  FAIL {} :: {}", sig, detail);
+            }
+            rep.fail(
+                &sig,
+                ord * 64 + si as u64,
+                || format!("text={:?} known={:?} milestone_interval={} {} range={:?}: {}", text, known, milestone, recv, sr, detail),
+                || seg_case_json(text, known, milestone),
+            );
+        };
+        if verbose {
+            println!("  {} {:?}: cuts at known begin/end positions give {:?}", recv, sr, exp);
+        }
+        match lib {
+            Err(p) => fail(&panic_class(&p), format!("panicked: {}", p)),
+            Ok((v, capped)) => {
+                let rs = ranges(&v);
+                if verbose {
+                    println!("    library: {:?}", rs);
+                }
+                if capped {
+                    fail("non-terminating", format!("iterator still yields after {} items", CAP));
+                    continue;
+                }
+                if sr.0 == sr.1 {
+                    // partition of an empty range: no piece or one zero-width piece are both accepted
+                    if !(rs.is_empty() || rs == vec![sr]) {
+                        fail("extra", format!("library {:?} for an empty range", rs));
+                    }
+                    continue;
+                }
+                if let Some(g) = v.iter().find(|g| g.b <= g.e && g.e <= n && g.t != slice_of(&chars, (g.b, g.e))) {
+                    fail("text-mismatch", format!("piece {}..{} reports text {:?}", g.b, g.e, g.t));
+                    continue;
+                }
+                if rs == exp {
+                    continue;
+                }
+                // classify
+                if rs.iter().any(|r| r.0 < sr.0 || r.1 > sr.1 || r.0 > r.1) {
+                    fail("outside-range", format!("library {:?}, expected {:?}", rs, exp));
+                } else if rs.is_empty() || rs[0].0 != sr.0 || rs[rs.len() - 1].1 != sr.1 || rs.windows(2).any(|w| w[0].1 != w[1].0) {
+                    fail("not-a-partition", format!("library pieces {:?} are not consecutive pieces covering {:?}", rs, sr));
+                } else {
+                    let gotcuts: Vec<usize> = rs.iter().skip(1).map(|r| r.0).collect();
+                    let expcuts: Vec<usize> = exp.iter().skip(1).map(|r| r.0).collect();
+                    if let Some(p) = expcuts.iter().find(|p| !gotcuts.contains(p)) {
+                        fail(&format!("missing-cut:{}", kind_of(*p)), format!("no cut at position {} where a known selection begins or ends; library {:?}, expected {:?}", p, rs, exp));
+                    } else if let Some(p) = gotcuts.iter().find(|p| !expcuts.contains(p)) {
+                        fail(&format!("extra-cut:{}", kind_of(*p)), format!("cut at position {} where no known selection begins or ends; library {:?}, expected {:?}", p, rs, exp));
+                    } else {
+                        fail("duplicate-piece", format!("library {:?}, expected {:?}", rs, exp));
+                    }
+                }
+            }
+        }
+    }
+    (cases, calls, nontrivial)
+}
+
+fn subsets_upto(pool: &[R], maxsize: usize) -> Vec<Vec<R>> {
+    let mut out: Vec<Vec<R>> = vec![vec![]];
+    let mut frontier: Vec<(usize, Vec<R>)> = vec![(0, vec![])];
+    for _ in 0..maxsize {
+        let mut next = Vec::new();
+        for (start, s) in &frontier {
+            for i in *start..pool.len() {
+                let mut t = s.clone();
+                t.push(pool[i]);
+                out.push(t.clone());
+                next.push((i + 1, t));
+            }
+        }
+        frontier = next;
+    }
+    out
+}
+
+// ------------------------------------------------------------------------------------------------
+// enumeration
+
+fn texts_upto(maxlen: usize) -> Vec<String> {
+    let mut out = vec![String::new()];
+    let mut level = vec![String::new()];
+    for _ in 0..maxlen {
+        let mut next = Vec::with_capacity(level.len() * SIGMA.len());
+        for t in &level {
+            for c in SIGMA {
+                let mut s = t.clone();
+                s.push(c);
+                next.push(s);
+            }
+        }
+        out.extend(next.iter().cloned());
+        level = next;
+    }
+    out
+}
+
+fn needles() -> Vec<String> {
+    let mut v = vec![String::new()];
+    for c in SIGMA.iter().chain(NEEDLE_EXTRA.iter()) {
+        v.push(c.to_string());
+    }
+    for a in SIGMA {
+        for b in SIGMA {
+            v.push([a, b].iter().collect());
+        }
+    }
+    v
+}
+
+struct OpSpec {
+    op: Op,
+    /// only applied to texts of at most this many codepoints
+    maxlen: usize,
+}
+
+fn op_list(tier: Tier) -> Vec<OpSpec> {
+    let mut v: Vec<OpSpec> = Vec::new();
+    let all = usize::MAX;
+    let nd = needles();
+    for nocase in [false, true] {
+        for n in &nd {
+            v.push(OpSpec { op: Op::Find { needle: n.clone(), nocase }, maxlen: all });
+        }
+    }
+    for n in &nd {
+        v.push(OpSpec { op: Op::Split { delim: n.clone() }, maxlen: all });
+    }
+    for with_fn in [false, true] {
+        for mask in 0..8u32 {
+            let set: Vec<char> = (0..3).filter(|i| mask & (1 << i) != 0).map(|i| TRIM_LETTERS[i]).collect();
+            v.push(OpSpec { op: Op::Trim { set, with_fn }, maxlen: all });
+        }
+    }
+    let mut seqs: Vec<Vec<String>> = Vec::new();
+    for a in SEQ_FRAGS {
+        seqs.push(vec![a.to_string()]);
+    }
+    for a in SEQ_FRAGS {
+        for b in SEQ_FRAGS {
+            seqs.push(vec![a.to_string(), b.to_string()]);
+        }
+    }
+    if tier == Tier::Thorough {
+        for a in SEQ_FRAGS3 {
+            for b in SEQ_FRAGS3 {
+                for c in SEQ_FRAGS3 {
+                    seqs.push(vec![a.to_string(), b.to_string(), c.to_string()]);
+                }
+            }
+        }
+    }
+    for cs in [true, false] {
+        for skip in 0..3u8 {
+            for s in &seqs {
+                v.push(OpSpec { op: Op::Seq { frags: s.clone(), skip, cs }, maxlen: all });
+            }
+        }
+    }
+    for overlap in [false, true] {
+        for i in 0..RX.len() {
+            v.push(OpSpec { op: Op::Regex { exprs: vec![i], overlap, preset: false }, maxlen: all });
+        }
+        for a in RX_PAIR {
+            for b in RX_PAIR {
+                if a != b {
+                    v.push(OpSpec { op: Op::Regex { exprs: vec![a, b], overlap, preset: false }, maxlen: all });
+                }
+            }
+        }
+        for a in RX_TRIPLE {
+            for b in RX_TRIPLE {
+                for c in RX_TRIPLE {
+                    if a != b && b != c && a != c {
+                        v.push(OpSpec { op: Op::Regex { exprs: vec![a, b, c], overlap, preset: true }, maxlen: all });
+                        // without a precompiled set the library compiles a RegexSet on every call: short texts only
+                        v.push(OpSpec { op: Op::Regex { exprs: vec![a, b, c], overlap, preset: false }, maxlen: tier.pick(2, 3) });
+                    }
+                }
+            }
+        }
+    }
+    v
+}
+
+fn store_op_list() -> Vec<Op> {
+    let mut v = Vec::new();
+    for nocase in [false, true] {
+        for n in needles() {
+            if !n.is_empty() {
+                v.push(Op::StoreFind { needle: n, nocase });
+            }
+        }
+    }
+    for i in 0..RX.len() {
+        v.push(Op::StoreRegex { exprs: vec![i], overlap: false });
+    }
+    v
+}
+
+/// scopes of a text in simplest-first order, each with a stable index (< 64)
+fn scopes(n: usize) -> Vec<Scope> {
+    let mut v = vec![Scope::Res];
+    for (b, e) in all_ranges(n) {
+        v.push(Scope::Sel(b, e));
+    }
+    v
+}
+
+pub fn run(rep: &Reporter) -> Coverage {
+    let tier = rep.tier;
+    let maxlen = tier.pick(4, 5);
+    let bound_maxlen = tier.pick(3, 4);
+    let texts = texts_upto(maxlen);
+    let ops = op_list(tier);
+    let store_ops = store_op_list();
+    let cases = AtomicU64::new(0);
+    let calls = AtomicU64::new(0);
+    let nontrivial = AtomicU64::new(0);
+    let nops = ops.len() as u64 + store_ops.len() as u64;
+
+    texts.par_iter().enumerate().for_each(|(ti, text)| {
+        let chars: Vec<char> = text.chars().collect();
+        let n = chars.len();
+        let plain = build_store(text, &[], None, None);
+        let two = build_store(text, &[], Some(R2_TEXT), None);
+        let bound = if n <= bound_maxlen { Some(build_store(text, &all_ranges(n), None, None)) } else { None };
+        let ctx = Ctx { text, chars, plain: &plain, bound: bound.as_ref(), two: Some(&two) };
+        let (mut c, mut k, mut nt) = (0u64, 0u64, 0u64);
+        let sc = scopes(n);
+        debug_assert!(sc.len() < 64);
+        for (si, scope) in sc.iter().enumerate() {
+            let recvs: &[Recv] = match (scope, ctx.bound.is_some()) {
+                (_, false) => &[Recv::Plain],
+                (Scope::Res, true) => &[Recv::Plain, Recv::Bound],
+                (Scope::Sel(..), true) => &[Recv::Plain, Recv::Bound, Recv::Item],
+            };
+            for (ri, recv) in recvs.iter().enumerate() {
+                for (oi, spec) in ops.iter().enumerate() {
+                    if n > spec.maxlen {
+                        continue;
+                    }
+                    let ord = ((ti as u64 * 64 + si as u64) * 4 + ri as u64) * nops + oi as u64;
+                    let o = check_op(rep, &ctx, *scope, *recv, &spec.op, ord, false);
+                    c += 1;
+                    k += o.calls;
+                    nt += o.nontrivial as u64;
+                }
+            }
+        }
+        for (oi, op) in store_ops.iter().enumerate() {
+            let ord = (ti as u64 * 64 * 4) * nops + ops.len() as u64 + oi as u64;
+            let o = check_op(rep, &ctx, Scope::Res, Recv::Plain, op, ord, false);
+            c += 1;
+            k += o.calls;
+            nt += o.nontrivial as u64;
+        }
+        cases.fetch_add(c, Ordering::Relaxed);
+        calls.fetch_add(k, Ordering::Relaxed);
+        nontrivial.fetch_add(nt, Ordering::Relaxed);
+    });
+    let text_cases = cases.load(Ordering::Relaxed);
+
+    // segmentation: every set of known selections up to a size over one text per length
+    let seg_bounds: Vec<(&str, usize, usize)> = match tier {
+        // (text, maximal number of known selections, milestone interval; 0 = library default, i.e. none in a short text)
+        Tier::Quick => vec![("a\u{e9}\u{1d11e}\u{130}", 3, 0), ("a\u{e9}\u{1d11e}\u{130}", 2, 2)],
+        Tier::Thorough => vec![("a\u{e9}\u{1d11e}\u{130}", 3, 0), ("a\u{e9}\u{1d11e}\u{130}", 2, 2), ("a\u{e9}\u{1d11e}\u{130} ", 4, 0), ("a\u{e9}\u{1d11e}\u{130} ", 3, 2), ("a\u{e9}\u{1d11e}\u{130} \u{1e9e}", 3, 1)],
+    };
+    let mut seg_space = Vec::new();
+    let mut seg_base: u64 = 1 << 40;
+    for (text, maxk, ms) in &seg_bounds {
+        let n = text.chars().count();
+        let sets = subsets_upto(&all_ranges(n), *maxk);
+        sets.par_iter().enumerate().for_each(|(i, known)| {
+            let (c, k, nt) = check_seg(rep, text, known, *ms, seg_base + i as u64, false);
+            cases.fetch_add(c, Ordering::Relaxed);
+            calls.fetch_add(k, Ordering::Relaxed);
+            nontrivial.fetch_add(nt, Ordering::Relaxed);
+        });
+        seg_space.push(json!({"text": text, "codepoints": n, "known_selection_sets": sets.len(), "max_known_selections": maxk,
+            "milestone_interval": if *ms == 0 { json!("default (100)") } else { json!(ms) },
+            "ranges_per_set": 1 + 2 * all_ranges(n).len()}));
+        seg_base += sets.len() as u64;
+    }
+
+    let mut cov = Coverage::default();
+    cov.states = cases.load(Ordering::Relaxed);
+    cov.transitions = calls.load(Ordering::Relaxed);
+    cov.traces_validated = cases.load(Ordering::Relaxed);
+    cov.evaluations = calls.load(Ordering::Relaxed);
+    cov.distinct_nontrivial = nontrivial.load(Ordering::Relaxed);
+    cov.rule = "states = distinct cases (text, receiver, searched range, operation with its arguments) resp. (known-selection set, receiver, range) for segmentation; transitions = calls of the library function under test, each compared with the plain-string oracle; non-trivial = the plain-string result is non-empty: at least one match (find_text, find_text_nocase, find_text_regex, find_text_sequence), at least two pieces (split_text, segmentation), or at least one codepoint trimmed (trim_text)".into();
+    cov.samples = vec![
+        case_json("a\u{130}A", Scope::Sel(1, 3), Recv::Plain, &Op::Find { needle: "a".into(), nocase: true }),
+        case_json(" a \u{e9}", Scope::Res, Recv::Plain, &Op::Split { delim: " ".into() }),
+        case_json("aA\u{1d11e}a", Scope::Sel(1, 4), Recv::Plain, &Op::Regex { exprs: vec![2, 3], overlap: false, preset: false }),
+        case_json("a a", Scope::Sel(0, 3), Recv::Bound, &Op::Seq { frags: vec!["a".into(), "A".into()], skip: 1, cs: false }),
+        seg_case_json("a\u{e9}\u{1d11e}\u{130}", &[(0, 2), (1, 3)], 0),
+    ];
+    cov.exhaustive = true;
+    cov.extra.insert(
+        "space".into(),
+        json!({
+            "alphabet": SIGMA.iter().map(|c| c.to_string()).collect::<Vec<_>>(),
+            "texts": texts.len(), "max_text_codepoints": maxlen,
+            "searched_ranges": "the whole resource and every sub-selection [b,e) with 0<=b<=e<=len (ResultTextSelection::Unbound)",
+            "annotated_store_variant": format!("texts of at most {} codepoints are searched again in a store where every range is a known selection, through ResultTextSelection::Bound and through ResultItem<TextSelection>", bound_maxlen),
+            "needles_and_delimiters": needles().len(),
+            "trim_sets": 8,
+            "sequence_cases": ops.iter().filter(|o| matches!(o.op, Op::Seq{..})).count(),
+            "regex_menu": RX,
+            "regex_cases": ops.iter().filter(|o| matches!(o.op, Op::Regex{..})).count(),
+            "operations_per_range": ops.len(),
+            "store_level_operations_per_text": store_ops.len(),
+            "text_cases": text_cases,
+            "segmentation": seg_space,
+            "iteration_cap": CAP,
+        }),
+    );
+    cov.assumptions = vec![
+        "case-insensitive match = a codepoint-aligned stretch of the text whose to_lowercase() equals the to_lowercase() of the needle; matches are taken leftmost, non-overlapping".into(),
+        "empty needle (find_text, find_text_nocase): only termination and absence of panics are required, the result is not compared".into(),
+        "trim_text of a text consisting only of trimmable characters: Err or any zero-width selection inside the range is accepted".into(),
+        "find_text_sequence: a returned sequence must be in order, inside the range, equal to the fragments and separated by skippable text; None is flagged only if an assignment exists even when the text before the first fragment must be skippable too (the documentation is silent on leading text); empty fragments are not used".into(),
+        "find_text_regex with several expressions: with allow_overlap every match of every expression must be returned; without it the results must be genuine matches, pairwise non-overlapping (non-empty hulls of the returned selections, different expressions) and maximal (a match touching no returned match must be returned); order is checked only where both readings of 'position of a match' (overall match / first returned group) agree; matches in which no capture group participates are ignored".into(),
+        "regular expressions are evaluated on the searched slice only (anchors and \\b see the slice boundaries), as the plain-string operation on the selected text would".into(),
+        "segmentation of an empty range may yield nothing or one zero-width piece; zero-width known selections count as positions where a known selection begins and ends".into(),
+        "order of results across different resources (AnnotationStore::find_text*) is not compared".into(),
+    ];
+    cov
+}
+
+pub fn replay(rep: &Reporter, case: &Value) {
+    let text = case["text"].as_str().unwrap_or("").to_string();
+    if case["kind"].as_str() == Some("seg") {
+        let known: Vec<R> = case["known"]
+            .as_array()
+            .map(|a| a.iter().map(|p| (p[0].as_u64().unwrap() as usize, p[1].as_u64().unwrap() as usize)).collect())
+            .unwrap_or_default();
+        let ms = case["milestone_interval"].as_u64().unwrap_or(0) as usize;
+        println!("replay C07 segmentation: text={:?} known={:?} milestone_interval={}", text, known, ms);
+        check_seg(rep, &text, &known, ms, 0, true);
+        return;
+    }
+    let op = Op::from_json(&case["op"]).expect("replay: unknown operation");
+    let recv = Recv::from_name(case["recv"].as_str().unwrap_or("plain"));
+    let scope = match case["scope"].as_array() {
+        Some(a) => Scope::Sel(a[0].as_u64().unwrap() as usize, a[1].as_u64().unwrap() as usize),
+        None => Scope::Res,
+    };
+    let chars: Vec<char> = text.chars().collect();
+    let n = chars.len();
+    let plain = build_store(&text, &[], None, None);
+    let two = build_store(&text, &[], Some(R2_TEXT), None);
+    let bound = build_store(&text, &all_ranges(n), None, None);
+    let ctx = Ctx { text: &text, chars, plain: &plain, bound: Some(&bound), two: Some(&two) };
+    println!("replay C07: text={:?} scope={:?} recv={} op={}", text, scope, recv.name(), op.to_json());
+    check_op(rep, &ctx, scope, recv, &op, 0, true);
+}
